@@ -154,4 +154,32 @@ theorem chained_cut_is_error (P : Profile) (o : Opts) (fuel i : Nat) (acc : List
         · exact hc.2 h
       · simp [hc]
 
+/-- **A cut inside the header is an error for every entry point** (DecodeHeader and
+    DecodeHeaderAndFileID included): no mode succeeds on fewer bytes than the header size the first
+    byte declares, nor on fewer than 12. -/
+theorem header_cut_is_error (P : Profile) (o : Opts) (m : Mode) (g : Globals) (data : Bytes) (stop : Stop)
+    (h : data.length < 12 ∨ data.length < (data.headD 0).toNat) :
+    ¬ (decodeSpec P o m g data stop).1.success := by
+  intro hs
+  have hsp := spec_success_of P o m g data stop hs
+  unfold decodeProg at hsp
+  obtain ⟨st', size, hsz, hlen, hsize, _⟩ := decodeHeader_success _ _ _ hsp
+  simp only at hlen hsize
+  rcases h with h | h
+  · rcases hsz with rfl | rfl <;> omega
+  · omega
+
+/-- `DecodeHeader` consumes exactly the header -/
+theorem header_only_consumes_header (P : Profile) (o : Opts) (g : Globals) (data : Bytes) (stop : Stop)
+    (hs : (decodeSpec P o .headerOnly g data stop).1.success) :
+    (decodeSpec P o .headerOnly g data stop).2.taken = (data.headD 0).toNat := by
+  have hsp := spec_success_of P o .headerOnly g data stop hs
+  unfold decodeSpec
+  simp only
+  unfold decodeProg at hsp ⊢
+  obtain ⟨st', size, hsz, hlen, hsize, _, _, _, heq⟩ := decodeHeader_success _ _ _ hsp
+  rw [heq]
+  simp only [runSpec, Nat.zero_add]
+  exact hsize
+
 end Fit.Props.C11
